@@ -21,6 +21,8 @@ SHA-256 of each copied span is recorded in the evidence):
       binding is dropped; Verus rejects `ensures` on foreign-trait impls)
   D5  contract text (requires/ensures/invariant/decreases) is inserted; no executable token is
       added, removed or reordered
+  D6  a ghost `proof { lemma(..); }` block may be inserted right after the body's opening brace (it is
+      erased by Verus; it only calls lemmas stated in the template)
 A directive whose anchor is missing or ambiguous is a *lost anchor* (ExtractError -> exit 2).
 """
 import hashlib
@@ -195,6 +197,22 @@ def locate_impl(src, header):
     return hits[0] + 1, end - 1
 
 
+def _param_paren(src, k):
+    """k indexes '(' or '<' right after the fn name; return the index of the parameter list's '('."""
+    if src[k] == "(":
+        return k
+    depth_a = 0
+    while True:
+        if src[k] == "<":
+            depth_a += 1
+        elif src[k] == ">" and src[k - 1] != "-":
+            depth_a -= 1
+            if depth_a == 0:
+                break
+        k += 1
+    return src.index("(", k)
+
+
 def extract_fn(file_rel, impl_header, name):
     src = _read(file_rel)
     s, e = locate_impl(src, impl_header)
@@ -223,7 +241,7 @@ def extract_fn(file_rel, impl_header, name):
             if m:
                 hits.append(i)
                 # skip over this fn entirely
-                brace = _find_body_brace(src, m.end() - 1, e)
+                brace = _find_body_brace(src, _param_paren(src, m.end() - 1), e)
                 i = match_brace(src, brace)
                 continue
         i += 1
@@ -237,21 +255,8 @@ def extract_fn(file_rel, impl_header, name):
     if not qual:
         raise ExtractError("unsupported construct before `fn %s`: %r" % (name, pre))
     item_start = fn_kw - len(qual.group(2))
-    paren = src.index("(", fn_kw) if "<" not in src[fn_kw:src.index("(", fn_kw)] else None
-    if paren is None:
-        # generics present: find matching '>' is hard in general; locate the first '(' after generics
-        lt = src.index("<", fn_kw)
-        depth_a = 0
-        k = lt
-        while True:
-            if src[k] == "<":
-                depth_a += 1
-            elif src[k] == ">" and src[k - 1] != "-":
-                depth_a -= 1
-                if depth_a == 0:
-                    break
-            k += 1
-        paren = src.index("(", k)
+    mm = rx.match(src, fn_kw)
+    paren = _param_paren(src, mm.end() - 1)
     brace = _find_body_brace(src, paren, e)
     end = match_brace(src, brace)
     ex = Extracted()
@@ -263,6 +268,14 @@ def extract_fn(file_rel, impl_header, name):
     ex.start_line = src.count("\n", 0, item_start) + 1
     ex.end_line = src.count("\n", 0, end) + 1
     ex.from_trait_impl = (" for " in impl_header)
+    ex.assoc_types = {}
+    if ex.from_trait_impl:
+        # D4: the trait's associated types (`type Item = u8;`) are substituted for `Self::Item`
+        for am in re.finditer(r"(?m)^\s*type\s+(\w+)\s*=\s*([^;]+);", src[s:e]):
+            ex.assoc_types[am.group(1)] = am.group(2).strip()
+        for k, v in ex.assoc_types.items():
+            ex.signature = re.sub(r"\bSelf::" + k + r"\b", v, ex.signature)
+            ex.body = re.sub(r"\bSelf::" + k + r"\b", v, ex.body)
     return ex
 
 
@@ -312,6 +325,20 @@ def extract_struct(file_rel, name):
     ex.start_line = src.count("\n", 0, start) + 1
     ex.end_line = src.count("\n", 0, end) + 1
     text = re.sub(r"^pub(?:\s*\([^)]*\))?\s+", "", ex.raw)
+    # D1: attributes are dropped, except derive(Copy, Clone, PartialEq, Eq), which the extracted methods rely on
+    pre = src[:start].rstrip().splitlines()
+    attrs = []
+    while pre and (pre[-1].strip().startswith("#[") or pre[-1].strip().startswith("///")):
+        attrs.append(pre.pop().strip())
+    keep = []
+    for a in attrs:
+        m = re.search(r"derive\(([^)]*)\)", a)
+        if m:
+            for t in [x.strip() for x in m.group(1).split(",")]:
+                if t in ("Copy", "Clone", "PartialEq", "Eq") and t not in keep:
+                    keep.append(t)
+    if keep:
+        text = "#[derive(%s)]\n" % ", ".join(keep) + text
     # field visibility is irrelevant to verification and `pub` on fields of a now-private struct is harmless
     ex.text = text
     return ex
@@ -399,6 +426,7 @@ def rewrite_body(body, loop_contracts):
 FN_DIRECTIVE = re.compile(r'^\s*//@fn\s+(C\d+)\s+(quick|thorough)\s+(\S+)\s+"([^"]*)"\s+(\w+)\s*::\s*(.*)$')
 STRUCT_DIRECTIVE = re.compile(r"^\s*//@struct\s+(\S+)\s+(\w+)\s*$")
 LOOP_DIRECTIVE = re.compile(r"^\s*//@loop\s+(\d+)\s*$")
+PROOF_DIRECTIVE = re.compile(r"^\s*//@proof\s+(.*)$")
 TWIN_DIRECTIVE = re.compile(r"^\s*//@twin\s+(\w+)(\s+complete)?\s*$")
 
 
@@ -441,6 +469,7 @@ def generate(template_path):
             prop, tier, file_rel, impl_header, name, desc = mf.groups()
             contract = []
             loops = {}
+            proofs = []
             cur = contract
             i += 1
             while i < len(lines) and lines[i].strip() != "//@end":
@@ -450,6 +479,8 @@ def generate(template_path):
                     loops[int(ml.group(1))] = cur
                 elif TWIN_DIRECTIVE.match(lines[i]):
                     pass
+                elif PROOF_DIRECTIVE.match(lines[i]):
+                    proofs.append(PROOF_DIRECTIVE.match(lines[i]).group(1))
                 else:
                     cur.append(lines[i])
                 i += 1
@@ -460,6 +491,11 @@ def generate(template_path):
             sig, d1 = rewrite_signature(ex.signature)
             body, d2 = rewrite_body(ex.body, {k: "\n".join(v) for k, v in loops.items()})
             drops = d1 + d2
+            if proofs:
+                # D6: a ghost `proof { .. }` block (lemma calls only) right after the body's opening brace
+                assert body.startswith("{")
+                body = "{ proof { " + " ".join(proofs) + " }" + body[1:]
+                drops.append("D6 ghost proof block inserted at the start of the body: " + " ".join(proofs))
             if ex.from_trait_impl:
                 drops.append("D4 taken from `%s`: emitted as an inherent method" % impl_header)
             start_line = len(out) + 1
